@@ -10,10 +10,10 @@ import math
 from lib.core import zlit, natlit
 
 MANIFEST = {
-    'text': 'Coq theorems (29, all closed under the global context) over a Gallina model of every stub in mpyc/gmpy.py, for all '
+    'text': 'Coq theorems (30, all closed under the global context) over a Gallina model of every stub in mpyc/gmpy.py, for all '
             'integers: gcdext terminates and returns g = gcd(a,b) = a*s + b*t; invert returns 0 <= y < |m| (0 < y if |m| > 1) with '
             'x*y = 1 mod |m| exactly when gcd(x,m) = 1 and m != 0, else ZeroDivisionError; powmod = x^y mod m (y >= 0); '
-            'isqrt/is_square/iroot: r^n <= x < (r+1)^n and exactness flag, is_square true iff a square; jacobi: ValueError '
+            'isqrt/is_square/iroot: r^n <= x < (r+1)^n and exactness flag, ValueError for negative x, is_square true iff a square; jacobi: ValueError '
             'exactly off-domain, terminates, value in {-1,0,1}, 0 iff gcd != 1, depends on x mod y only, equals Euler\'s criterion '
             'for every odd prime y < 400 (by computation, bound in the statement); kronecker = jacobi for odd y > 0; is_prime: '
             'prime x -> True for ALL tapes and round counts (Fermat\'s little theorem and square roots of 1 proved here), hence '
@@ -33,8 +33,9 @@ MANIFEST = {
             'factor_prime_power (raises only if not a prime power) and of ratrec (raises only if no solution) are checked by '
             'brute-force oracle only; kronecker for even/negative y only by oracle + correspondence; powmod with negative '
             'exponent only by correspondence; next/prev_prime search fuel is an explicit parameter (no prime-gap bound). '
-            'Oracle for >20-bit primality is an independent Miller-Rabin with 40 fixed prime bases. Known finding F-C25-1: '
-            'iroot returns a value for negative x instead of raising. Observation: is_square raises ValueError for negative x '
+            'Oracle for >20-bit primality is an independent Miller-Rabin with 40 fixed prime bases. Finding F-C25-1 (iroot returned a '
+            'value for negative x instead of raising) is repaired by /repo commit 15b125f; the model, C25_iroot_domain and '
+            'the oracle now require ValueError for every x < 0. Observation: is_square raises ValueError for negative x '
             'with x mod 16 in {0,1,4,9} and returns False for the other negatives (gmpy2 returns False).',
     'technique': 'Coq proofs (Euclid invariants, Fermat little theorem by permutation, bit-loop invariants) + vm_compute '
                  'correspondence on shared randint tapes + brute-force oracles',
@@ -514,7 +515,7 @@ def run(ctx):
     exprs.append('map is_square [%s]' % '; '.join(zlit(x) for x in xs))
     expect.append(r2)
     NLO, NHI = -3, 9
-    rows, neg_iroot = [], []
+    rows = []
     for x in range(LO, U + 1):
         row = []
         for n in range(NLO, NHI + 1):
@@ -525,18 +526,16 @@ def run(ctx):
                     and r[1][1] == (r[1][0] ** n == x)
                 if not good:
                     viol('iroot x=%d n=%d' % (x, n), {'f': 'iroot', 'x': x, 'n': n, 'got': r})
-            elif x < 0 and n >= 1:
-                # invalid input (gmpy2.iroot raises ValueError for negative x): must raise, not return a value
-                if isinstance(r, tuple):
-                    neg_iroot.append({'x': x, 'n': n, 'got': r})
+            elif x < 0:
+                # invalid input: ValueError, as gmpy2.iroot (stub repaired by /repo commit 15b125f)
+                if r != 'EValue':
+                    viol('iroot-negative-x x=%d n=%d' % (x, n), {'f': 'iroot', 'x': x, 'n': n, 'got': r, 'want': 'ValueError'})
             elif x != 0 and isinstance(r, tuple):
-                # n <= 0 is invalid input; the only values returned are for |x| = 1, n < 0: 1 = 1**n exactly
-                if not (n < 0 and r[1] == (1, x == 1)):
+                # x > 0, n <= 0 is invalid input; the only value returned is for x = 1, n < 0: 1 = 1**n exactly
+                if not (n < 0 and x == 1 and r[1] == (1, True)):
                     viol('iroot-nonpositive-n x=%d n=%d' % (x, n), {'f': 'iroot', 'x': x, 'n': n, 'got': r})
             ctx.case(['iroot', x, n], nontrivial=x > 1 and n >= 1, kind='iroot grid')
         rows.append(row)
-    if neg_iroot:
-        viol('iroot-negative-x-returns-value', {'f': 'iroot', 'count': len(neg_iroot), 'examples': neg_iroot[:8] + neg_iroot[-4:]})
     exprs.append('grid iroot %s %s %s %s' % (zlit(LO), natlit(U + 1 - LO), zlit(NLO), natlit(NHI - NLO + 1)))
     expect.append(rows)
     pairs = []
